@@ -57,6 +57,9 @@ def run(chk):
         cases.append({"src": "\n".join(sa + [f"put {ea} into T", "let T be with 1, \"x\", 2", "say T"]) + "\n", "meta": {"op": "compound+list", "a": na}})
         cases.append({"src": "\n".join(sa + [f"put {ea} into T", "let T be times 2, 3", "say T", "build T up, up", "say T", "knock T down", "say T"]) + "\n", "meta": {"op": "compound*,inc", "a": na}})
         cases.append({"src": "\n".join(sa + ["Shouter takes X", "say X", "give back X", "", f"say {ea} and Shouter taking 1", f"say {ea} or Shouter taking 2", f"say {ea} nor Shouter taking 3", f"say {ea} and Shouter taking 0, Shouter taking 5"]) + "\n", "meta": {"op": "short-circuit", "a": na}})
+    from . import compound
+    for a, b, m in compound.pairs(ops=["with", "minus", "times", "over"] if quick else None):
+        cases.append({"src": a, "meta": dict(m, form="compound")})
     cases += [{"src": c["src"], "meta": {"corpus": c.get("note")}} for c in corpus_cases("exec")]
     recs = execsuite.run(chk, cases, "expr", suite_name="EXEC-expr")
     record_exec(chk, recs, sig=lambda r: (str(r["case"].get("meta")), outcome_class(r["impl"].get("debug", ""))))
